@@ -34,7 +34,7 @@ def check(ctx):
     ctx.rule('C06.O', 'per-thread order: enqueue at end, take at begin, put-back at begin; slots handed back FULL, recycled EMPTY')
     from .c05 import run_slot_rules
     ctx.rule('C06.M', 'stored payloads are not moved from before they are consumed')
-    from ..moves import MoveAnalysis
+    from ..moves import MoveAnalysis, vtag
     for tu in ctx.tus:
         info = TUInfo(tu)
         run_slot_rules(ctx, 'C06.O', 'C06.O', tu, only_kinds=('O-', 'P-into', 'P-swap'))
@@ -43,7 +43,7 @@ def check(ctx):
             if queue_of(f) and f.outermost().name in ('processIf', 'processUntil', 'process', 'processOne', 'peekEvent', 'doInvokeFuncWithQueuedEvent',
                                                        'doInvokeFuncWithQueuedEventHelper', 'doDispatchQueuedEvent', 'doProcessIf', 'doDispatchItem', 'doDispatchQueuedItem'):
                 vs, pairs = ma.violations(f)
-                names = sorted({v['site']['name'] + ' ' + v['kind'] for v in vs})
+                names = sorted({vtag(v) for v in vs})
                 ctx.ob('C06.M', f, 'a queued event\'s stored arguments are read, never moved from, until the event is consumed', not vs,
                        detail='\n'.join(v['msg'] for v in vs[:3]), key_detail='move ' + ','.join(names))
         for q in QUEUES:
